@@ -304,7 +304,7 @@ def _pick_boundary_days(days, quick, rng):
         by_kind.setdefault(r["kind"], []).append(i)
     special_years = {1901, 1904, 1999, 2000, 2001, 2016, 2019, 2020, 2098, 2099}
     want = {"year": 8, "leapday": 10, "month": 10, "day": 4} if quick else \
-           {"year": 80, "leapday": 98, "month": 140, "day": 82}
+           {"year": 50, "leapday": 50, "month": 60, "day": 40}
     chosen = []
     for kind, n in want.items():
         pool = by_kind.get(kind, [])
@@ -503,7 +503,31 @@ def run(ctx: Ctx):
             f_sec = ex.submit(cal.run_seconds, sec_cfg, ctx.sub("seconds"), w)
             f_dur = ex.submit(tlc.run_tlc, "Durations", dur_cfg, ctx.sub("durations"), workers=w, timeout=1500)
             f_mut = ex.submit(_spec_mutant, ctx.sub("dur_mutant"))
-            # -- timed runs start as soon as the lattice and the boundary ticks are there
+            # -- the calendar table; the sweep of instants starts as soon as it is there
+            walk_res, days = f_walk.result()
+            phase["walk"] = round(time.time() - t0, 1)
+            first, last = days[0], days[-1]
+            if (first["y"], first["m"], first["d"]) != (1901, 1, 1) or (last["y"], last["m"], last["d"]) != (2099, 12, 31):
+                raise tlc.MachineryError(f"Calendar walk does not span 1901-2099: {first} .. {last}")
+            dn_pairs = [((r["y"], r["m"], r["d"]), r["dn"]) for r in days]
+            idx = cal.DayIndex(dn_pairs)
+            tup = [(r["y"], r["m"], r["d"], r["dn"], r["doy"]) for r in days]
+            tasks = []
+            n_sod = 4 if quick else 24
+            chunk = 300 if quick else 100
+            for a in range(0, len(tup), chunk):
+                tasks.append({"kind": "sparse", "id": len(tasks), "days": tup[a:a + chunk], "seed": ctx.seed, "n": n_sod,
+                              "dn": _dn_of(tup, a, a + chunk)})
+            bidx = _pick_boundary_days(days, quick, rng)
+            hours = 2
+            for j, i in enumerate(bidx):      # the day whose END is the boundary, and the second just after it
+                nxt = tup[i + 1] if i + 1 < len(tup) else None
+                for h0 in range(0, 24, hours):
+                    tasks.append({"kind": "full", "id": len(tasks), "day": tup[i], "next": nxt,
+                                  "dense": j % (16 if quick else 5) == 0,
+                                  "lo": h0 * 3600, "hi": (h0 + hours) * 3600, "dn": _dn_of(tup, i, i + 1)})
+            sweep_async = pool.map_async(_dispatch, tasks, chunksize=1)
+            # -- timed runs follow as soon as the lattice and the boundary ticks are there
             sec_res, ticks = f_sec.result()
             dur_res = cal.spec_fail(f_dur.result(), "Durations.tla lattice")
             lattice = dur_res.tagged("DUR")
@@ -514,36 +538,13 @@ def run(ctx: Ctx):
             dur_tasks = _duration_tasks(chosen, starts, rng)
             phase["lattice_and_ticks"] = round(time.time() - t0, 1)
             dur_async = pool.map_async(_dispatch, dur_tasks, chunksize=2)
-            # -- the calendar table
-            walk_res, days = f_walk.result()
-            phase["walk"] = round(time.time() - t0, 1)
             killed = f_mut.result()
         ctx.add_tlc(walk_res, "Calendar.tla day walk 1901-2099 (calendar invariants, RoundTrip, Monotone; per-day table)")
         ctx.add_tlc(sec_res, "Calendar.tla second ticks across boundary instants (Monotone, RoundTrip, TickLength)")
         ctx.add_tlc(dur_res, "Durations.tla configuration lattice (StepsHonoured, EpochsAreStartPlusKDt, ...)")
-        first, last = days[0], days[-1]
-        if (first["y"], first["m"], first["d"]) != (1901, 1, 1) or (last["y"], last["m"], last["d"]) != (2099, 12, 31):
-            raise tlc.MachineryError(f"Calendar walk does not span 1901-2099: {first} .. {last}")
-        dn_pairs = [((r["y"], r["m"], r["d"]), r["dn"]) for r in days]
-        idx = cal.DayIndex(dn_pairs)
-        tup = [(r["y"], r["m"], r["d"], r["dn"], r["doy"]) for r in days]
-        # -- spec -> impl sweep of instants
-        tasks = []
-        n_sod = 4 if quick else 40
-        chunk = 300 if quick else 60
-        for a in range(0, len(tup), chunk):
-            tasks.append({"kind": "sparse", "id": len(tasks), "days": tup[a:a + chunk], "seed": ctx.seed, "n": n_sod,
-                          "dn": _dn_of(tup, a, a + chunk)})
-        bidx = _pick_boundary_days(days, quick, rng)
-        hours = 2
-        for j, i in enumerate(bidx):      # the day whose END is the boundary, and the second just after it
-            nxt = tup[i + 1] if i + 1 < len(tup) else None
-            for h0 in range(0, 24, hours):
-                tasks.append({"kind": "full", "id": len(tasks), "day": tup[i], "next": nxt, "dense": (not quick) or j % 16 == 0,
-                              "lo": h0 * 3600, "hi": (h0 + hours) * 3600, "dn": _dn_of(tup, i, i + 1)})
-        results = {r["id"]: r for r in pool.imap_unordered(_dispatch, tasks, chunksize=1)}
+        results = {r["id"]: r for r in sweep_async.get(timeout=6000)}
         phase["instants_swept"] = round(time.time() - t0, 1)
-        runs_raw = dur_async.get(timeout=3000)
+        runs_raw = dur_async.get(timeout=6000)
         phase["timed_runs_done"] = round(time.time() - t0, 1)
     finally:
         pool.terminate()
